@@ -260,7 +260,7 @@ PROPS = {
         'mc_quick': ['MC_quick.cfg', 'MC_self_q.cfg'], 'mc_thorough': [('MC_nest.cfg', 1500), ('MC_self.cfg', 900)],
         'sim': [('MC_sim.cfg', 100, 1500, 60), ('MC_sim_self.cfg', 30, 500, 60)],
         'title': 'build_file contract',
-        'units': [('nested', 1500, 20000), ('swap', 600, 8000), ('bfcontract', 2000, 30000), ('probe', 300, 5000), ('selfnest', 800, 10000), ('bulk', 2, 12), ('regress', 0, 0)],
+        'units': [('nested', 1500, 20000), ('swap', 600, 8000), ('bfcontract', 2000, 30000), ('probe', 300, 5000), ('selfnest', 800, 10000), ('bulk', 2, 12), ('keys', 600, 6000), ('regress', 0, 0)],
         'owned': {'TargetFileAfterOk', 'TargetAbsentAfterFail', 'OutcomeMatches', 'PathNormalised',
                   'SetupErrClass', 'SetupFailExpected', 'ExcIdentity', 'ReturnMatches', 'AnswerMatches',
                   'FinalTreeMatches', 'RollbackRestores', 'CleanExact', 'ExceptionClassMatches',
